@@ -22,6 +22,7 @@ import SlimProps.BridgeSem.GetNode
 import SlimProps.BridgeSem.DescentStep
 import SlimProps.BridgeSem.LeafAccess
 import SlimProps.BridgeSem.MostLoops
+import SlimProps.BridgeSem.LegacyLeaf
 /-
   SlimProps.BridgeSem — tie 1, semantic part: the small pure functions of the Go source, translated
   to Lean on every check run (lean/Generated/Funcs.lean, written by harness/cmd/extract/translate.go
@@ -96,5 +97,14 @@ import SlimProps.BridgeSem.MostLoops
     MostLoops       rightMost_sem, leftMost_sem (the loops `for { …getNode…; break … }` as fuel-recursive
                     definitions: the model's descent and the Go loop reach the same leaf within the same fuel),
                     rightMost_loop_sem, leftMost_loop_sem, getNode_inner_data, exSlim_trieFits
+
+  The LEGACY LOADER of trie/slimtrie_marshal.go (data written by 0.5.0 … 0.5.11), same W-mode (plus:
+  assignments through a local pointer that is an alias of a path `st.inner.Leaves`, `for` loops with a
+  header, `make`, element assignment, division by a non-constant with its panic, the outcome of
+  `st.encoder.GetEncodedSize(nil)` as an implicit parameter):
+
+    LegacyLeaf      before000512FixLeafSize_sem (= Legacy.fixLeafSize, panics included; range hypotheses
+                    `FixLeafFits`), before000512FixLeafSize_panics, fixLeafSize_loop_sem; the assumed
+                    semantics bitmapOf_sem, indexRank64_sem, newBMr64_sem (bitmap.Of, IndexRank64, trie.newBM)
 -/
 
